@@ -97,7 +97,7 @@ package responsemanager
 //@ func ResponseManager.newRequest
 //@   lenient
 //@   requires invRS(rm) && mine(rm, p, request.id)
-//@   modifies rm.inProgressResponses[*], prot, alloc, nPush
+//@   modifies rm.inProgressResponses[*], prot, alloc, nPush, nScope
 //@   -- C23: a new response is Queued exactly when its task was pushed (otherwise it is Paused or CompletingSend)
 //@   ensures (rm.inProgressResponses[request.id].state == graphsync.Queued) <==> (nPush == old(nPush) + 1)
 //@   ensures rm.inProgressResponses[request.id].state == graphsync.Queued || rm.inProgressResponses[request.id].state == graphsync.Paused || rm.inProgressResponses[request.id].state == graphsync.CompletingSend
